@@ -5,6 +5,7 @@ import (
 	"math/rand"
 	"os"
 	"path/filepath"
+	"sort"
 	"strings"
 	"time"
 
@@ -153,6 +154,9 @@ func runC19(w *World) {
 		}
 	}
 
+	fb, _ := os.ReadFile(boardFile)
+	finalBoard := maskDates(strings.ReplaceAll(string(fb), "\n", "\r"))
+
 	// linearizability of posts and reads against "list of posts, newest first"
 	model := porcupine.Model{
 		Init: func() interface{} { return "" }, // state: comma separated post ids, newest first
@@ -184,6 +188,14 @@ func runC19(w *World) {
 	if len(hist) > 0 {
 		w.AfterBubble = append(w.AfterBubble, func() {
 			res := porcupine.CheckOperationsTimeout(model, hist, 20*time.Second)
+			// independent cross-check of the two deciders (they share nothing but the history)
+			wit := c19WitnessCheck(hist, bodies, initial, finalBoard)
+			if res == porcupine.Illegal && wit == 1 {
+				panic("c19: porcupine says not linearizable, the final-order decider found a linearization")
+			}
+			if res == porcupine.Ok && wit == -1 {
+				w.Violate("c19-final-board-inconsistent", "the history of %d posts/reads is linearizable, but not with the post order the final MessageBoard.txt shows", len(hist))
+			}
 			switch res {
 			case porcupine.Illegal:
 				// describe one offending read for the report
@@ -199,7 +211,17 @@ func runC19(w *World) {
 				}
 				w.Violate("c19-not-linearizable", "history of %d posts/reads has no linearization against 'list of posts, newest first'%s", len(hist), detail)
 			case porcupine.Unknown:
-				w.Probe("porcupine_inconclusive")
+				// the general search ran out of time; decide with the post order the final file shows (any
+				// linearization must end in that state, so the order of the posts is known and what is left -
+				// placing each read - is polynomial)
+				switch c19WitnessCheck(hist, bodies, initial, finalBoard) {
+				case 1:
+					w.Probe("porcupine_timeout_decided_ok_by_final_order")
+				case -1:
+					w.Violate("c19-not-linearizable", "history of %d posts/reads has no linearization that ends in the post order of the final MessageBoard.txt", len(hist))
+				default:
+					w.Probe("porcupine_inconclusive")
+				}
 			default:
 				w.Probe("porcupine_ok")
 			}
@@ -291,6 +313,90 @@ func commonPrefix(a, b string) int {
 		i++
 	}
 	return i
+}
+
+// c19WitnessCheck decides linearizability given the final board: 1 linearizable, -1 not, 0 cannot tell (a post of
+// the history is not in the final board exactly once).
+func c19WitnessCheck(hist []porcupine.Operation, bodies map[int]string, initial, final string) int {
+	type post struct {
+		id       int
+		pos      int
+		inv, ret int64
+	}
+	var ps []post
+	for _, op := range hist {
+		if in := op.Input.(c19In); in.Post {
+			b := bodies[in.ID]
+			if strings.Count(final, b) != 1 {
+				return 0
+			}
+			ps = append(ps, post{in.ID, strings.Index(final, b), op.Call, op.Return})
+		}
+	}
+	sort.Slice(ps, func(i, j int) bool { return ps[i].pos > ps[j].pos }) // oldest first: rank = index
+	if !strings.HasSuffix(final, initial) {
+		return -1
+	}
+	for i := range ps {
+		for j := range ps {
+			if ps[i].ret < ps[j].inv && i > j {
+				return -1 // finished before the other began, yet ordered after it
+			}
+		}
+	}
+	// state after the k oldest posts
+	states := make([]string, len(ps)+1)
+	cur := initial
+	states[0] = cur
+	for k := 1; k <= len(ps); k++ {
+		cur = bodies[ps[k-1].id] + cur
+		states[k] = cur
+	}
+	for k := range states {
+		if len(states[k]) > 65535 {
+			states[k] = states[k][:65535]
+		}
+	}
+	type read struct {
+		inv, ret int64
+		out      string
+		k        int
+	}
+	var rs []read
+	for _, op := range hist {
+		if in := op.Input.(c19In); !in.Post {
+			rs = append(rs, read{inv: op.Call, ret: op.Return, out: op.Output.(string)})
+		}
+	}
+	sort.Slice(rs, func(i, j int) bool { return rs[i].inv < rs[j].inv })
+	for i := range rs {
+		r := &rs[i]
+		lo, hi := 0, len(ps)
+		for rank, p := range ps {
+			if p.ret < r.inv {
+				lo = max(lo, rank+1)
+			}
+			if p.inv > r.ret {
+				hi = min(hi, rank)
+			}
+		}
+		for j := 0; j < i; j++ {
+			if rs[j].ret < r.inv {
+				lo = max(lo, rs[j].k)
+			}
+		}
+		r.k = -1
+		for k := lo; k <= hi; k++ {
+			if states[k] == r.out {
+				r.k = k
+				break
+			}
+		}
+		if r.k < 0 {
+			return -1
+		}
+	}
+	return 1
 }
 
 func init() {
